@@ -95,6 +95,11 @@ var c03Ctx = []string{
 	"return (%F) < (%G) && (%H) >= (%F);",
 	"x = 1.5 + %F; return x * %G;",
 	"return \"a\" + string(%F) + string(%G);",
+	"if (C1 ? I1 : %F) { t(1); } else { t(2); } return %G;",
+	"return (C1 ? I1 : %F) ? 1 : 2;",
+	"w = 0; while (C1 ? w < 2 : %F) { w++; t(w); if (w > 3) { return w; } } return w;",
+	"x = (C1 ? %F : I1) ? %G : %H; return x;",
+	"if (!(C1 ? I1 - 3 : %F)) { t(1); } return 1;",
 	// returns in one branch only, so that jumps over / past a return matter
 	"if (%F) { x = 1; } else { return %G; } return x;",
 	"if (%F) { return %G; } else { x = 2; } return x;",
@@ -144,6 +149,59 @@ func c03(c *ev.Ctx) {
 		if i%400 == 0 {
 			c.Sample(map[string]string{"script": g.script, "kind": "grid"})
 		}
+	})
+	// (a2) operand bytes equal to opcode values: the instruction in front of a
+	// conditional jump (or a return) is a lookup / push / constant / call whose operand
+	// low byte runs through every opcode value (constant-pool position, literal value,
+	// argument count)
+	type bytecase struct{ script string }
+	var bcs []bytecase
+	for nconst := 0; nconst <= 50; nconst++ {
+		var pre strings.Builder
+		for k := 0; k < nconst; k++ {
+			fmt.Fprintf(&pre, "k%d = \"c%d\"; ", k, k)
+		}
+		// after nconst assignments the pool holds 2*nconst entries; vary by one with an extra lookup
+		for _, extra := range []string{"", "z0; "} {
+			p0 := pre.String() + extra
+			bcs = append(bcs,
+				bytecase{p0 + "if (Flag) { t(1); x = \"yes\"; } else { t(2); } return x;"},
+				bytecase{p0 + "w = 0; while (Flag) { w++; t(w); if (w > 2) { return w; } } return w;"},
+				bytecase{p0 + "return Flag ? \"a\" : \"b\";"},
+				bytecase{p0 + "function f() { return Flag; } if (f()) { t(1); } return f();"},
+				bytecase{p0 + "if (\"lit" + fmt.Sprint(nconst) + "\") { t(1); } else { t(2); } return 1;"},
+				bytecase{p0 + "if (1.5) { t(1); } else { t(2); } return Flag;"})
+		}
+	}
+	for lit := 0; lit <= 50; lit++ {
+		for _, base := range []int{0, 256, 512, 65280} {
+			v := base + lit
+			if v > 65534 {
+				continue
+			}
+			bcs = append(bcs,
+				bytecase{fmt.Sprintf("if (%d) { t(1); } else { t(2); } return %d;", v, v)},
+				bytecase{fmt.Sprintf("w = 0; while (%d) { w++; if (w > 1) { return w; } } return w;", v)},
+				bytecase{fmt.Sprintf("return %d ? \"a\" : \"b\";", v)},
+				bytecase{fmt.Sprintf("function f() { %d } f(); function g() { return %d; } return g();", v, v)})
+		}
+	}
+	for nargs := 0; nargs <= 30; nargs++ {
+		args := make([]string, nargs)
+		for k := range args {
+			args[k] = fmt.Sprint(k)
+		}
+		bcs = append(bcs, bytecase{"if (len(sprintf(\"x\"" + strings.Join(append([]string{""}, args...), ", ") + "))) { t(1); } else { t(2); } return 1;"},
+			bytecase{"function many() { v(" + strings.Join(args, ", ") + ") } many(); return 2;"})
+	}
+	c.ParFor(len(bcs), func(i int) {
+		id := fmt.Sprintf("opbyte/%d", i)
+		if !c.Want(id) {
+			return
+		}
+		objs := []map[string]model.Value{{"Flag": model.Bool(true)}, {"Flag": model.Bool(false)}, {"Flag": model.Int(3)}}
+		judged := diffOptNoOpt(c, id, "operand byte equal to an opcode", bcs[i].script, nil, objs)
+		c.Case(bcs[i].script, judged > 0)
 	})
 	// (b) random programs
 	n := c.Pick(3000, 300000)
